@@ -263,8 +263,10 @@ pub fn apply_op(sh: &Rc<Shared>, uid: usize, op: &Op, a: &[&Array], any_tracked:
         }
         Op::Custom { kind, coef, script } => {
             let (f, b) = custom_op(sh, uid, kind, coef, script);
-            // like the built-in operations, a user operation on untracked operands records no graph
-            Array::op(a, f, if any_tracked { Some(b) } else { None })
+            // the user always supplies a derivative closure, as in the documented example; whether a graph
+            // is recorded for untracked operands is the library's decision (C09)
+            let _ = any_tracked;
+            Array::op(a, f, Some(b))
         }
     }
 }
